@@ -304,7 +304,7 @@ def r4(ck, F):
         fc = [c for c in F.closures_of(pb) if any(t["callee"].get("method") == "is_file" for bb, t in c.calls())]
         if fc:
             used = [t["callee"].get("method") for bb, t in fc[0].calls()]
-            if "starts_with" in used and "ends_with" in used and "is_file" in used:
+            if ("starts_with" in used or "strip_prefix" in used) and ("ends_with" in used or "strip_suffix" in used) and "is_file" in used:
                 ck.ok("C16.R4", "candidates: regular files matching the appender's prefix/suffix", fn=fc[0].path)
             else:
                 ck.bad("C16.R4", "candidates: regular files matching the appender's prefix/suffix", where(fc[0].raw["sp"]), "filter uses %s" % used, fn=fc[0].path)
@@ -321,13 +321,29 @@ def r4(ck, F):
                     problems.add("an entry is accepted without metadata.is_file() having been true: directories and symlinks could be pruned")
                 for field, test in (("log_filename_prefix", "starts_with"), ("log_filename_suffix", "ends_with")):
                     states = [option_test(c)[1] for c in p.conds if field in show(c[0]) and option_test(c)[0] is not None]
-                    matched = any(show(c[0]).startswith(test + "(") and c[1] != 0 for c in p.conds)
+                    strip = "strip_prefix(" if test == "starts_with" else "strip_suffix("
+                    matched = any(show(c[0]).startswith(test + "(") and c[1] != 0 for c in p.conds) or \
+                        any(show(c[0]).startswith("discr(branch(" + strip) and c[1] == 0 for c in p.conds)      # `name.strip_prefix(p)?` continued
                     if True in states and False in states:
                         continue        # infeasible: the evaluator does not relate `if let Some(..)` to a later `.is_none()`
                     if not states:
                         problems.add("a file is accepted on a path that never looks at %s" % field)
                     elif any(st is True for st in states) and not matched:
                         problems.add("a file is accepted although %s is set and %s was not required" % (field, test))
+                # ... and what is left is a date in the appender's own format: `app-audit.log` next to `app.<date>.log` shares
+                # prefix and suffix but is somebody else's file
+                if nacc:
+                    pass
+            undated = 0
+            for p in PathEval(fc[0]).run():
+                if p.end == "return" and show(p.ret).startswith("Option::Some"):
+                    dated = any(("parse(" in show(c[0])) and ((show(c[0]).startswith("is_err(") and c[1] == 0) or (show(c[0]).startswith("is_ok(") and c[1] != 0)
+                                                             or (show(c[0]).startswith("discr(") and c[1] == 0)) for c in p.conds)
+                    if not dated:
+                        undated += 1
+            if undated:
+                problems.add("a file is accepted on %d path(s) without the rest of its name having parsed as a date: any file that shares the prefix and the suffix "
+                             "(another appender's, or a hand-made one) is counted as this appender's log file and pruned" % undated)
             key = "candidates: a configured prefix and a configured suffix must both match"
             if nacc and not problems:
                 ck.ok("C16.R4", key, fn=fc[0].path, detail=nacc)
